@@ -183,6 +183,7 @@ pub struct SrcStats {
     pub early_eof: u64,
     pub eof_calls: u64,
     pub short_reads: u64,
+    pub transient_eof: u64,
 }
 
 pub struct Core {
@@ -200,6 +201,10 @@ pub struct Core {
     /// (offset, len) of every successful delivery, for boundary accounting
     pub deliveries: Vec<(usize, usize)>,
     pub log: Fnv,
+    /// transient ends of file: at each of these offsets the source answers Ok(0) exactly once and
+    /// never delivers across it in one read (a file that is still being written, followed by a
+    /// reader that is called again); part of the case, not of the decision script
+    pub teof: Vec<(usize, bool)>,
 }
 
 impl Core {
@@ -218,6 +223,7 @@ impl Core {
             eof_forced: false,
             deliveries: vec![],
             log: Fnv::default(),
+            teof: vec![],
         }
     }
 
@@ -335,9 +341,21 @@ impl Core {
             self.log.bytes(b"0");
             return Ok(0);
         }
+        let pos = self.pos;
+        if let Some(t) = self.teof.iter_mut().find(|(o, fired)| *o == pos && !*fired) {
+            t.1 = true;
+            self.stats.eof_calls += 1;
+            self.stats.transient_eof += 1;
+            self.log.bytes(b"t");
+            return Ok(0);
+        }
         match self.next(buf.len(), is_async) {
             Dec::R(k) => {
-                let remaining = self.data.len() - self.pos;
+                let mut remaining = self.data.len() - self.pos;
+                let pos = self.pos;
+                if let Some(next_stop) = self.teof.iter().filter(|(o, fired)| !*fired && *o > pos).map(|(o, _)| *o).min() {
+                    remaining = remaining.min(next_stop - pos);
+                }
                 let n = (k as usize).min(buf.len()).min(remaining).max(1);
                 buf[..n].copy_from_slice(&self.data[self.pos..self.pos + n]);
                 self.deliveries.push((self.pos, n));
